@@ -529,6 +529,20 @@ fn ill_sorted_variants(case: &OpCase, salt: u64) -> Vec<(String, String)> {
             out.push((format!("declared sort {} -> {}", ot[2], sid), txt.join("\n") + "\n"));
         }
     }
+    // (4) history: the complete well-sorted file, followed by a *repetition* of the operator line (same operands,
+    //     new id) whose declared sort is another declared sort - the reader has already built and accepted the
+    //     identical expression once
+    for (sid, _) in sorts.iter() {
+        if sid.to_string() != ot[2] {
+            let mut t = ot.clone();
+            t[0] = "9500".into();
+            t[2] = sid.to_string();
+            let mut txt: Vec<String> = lines.iter().map(|s| s.to_string()).collect();
+            txt.push(t.join(" "));
+            txt.push("9501 output 9500".into());
+            out.push((format!("repeated line with declared sort {} -> {}", ot[2], sid), txt.join("\n") + "\n"));
+        }
+    }
     // (2) an extra operand of a different bit-vector width replaces the last operand
     if case.args.len() >= 2 && case.op != "concat" {
         if let S::BV(w) = case.args[case.args.len() - 1] {
